@@ -141,6 +141,7 @@ def check(P, rep):
                   # the WRAPPER-level dispatch is decided by C04.R2 itself (the early strict type check or the dispatch, whichever guards the arm)
                   and not re.search(r'sol struct (ReceiveFromHub|SendToHub) is decoded only behind the dispatch edge', o['what']),
                   'delivered payloads are decoded strictly and only well-formed messages (amount < 2^127, supported types, exact lengths) are acted on', 30)
+    check_ttl_extensions(P, rep, 'C04.R5', CN, ['execute'], 2)
     storage_classes(P, rep, 'C04.R2', CN, {'TrustedChain': 'persistent', 'TokenIdConfigKey': 'persistent', 'Gateway': 'instance', 'ItsHubAddress': 'instance'})
     # "currently trusted origin chain": the trust set changes exactly as its two admin entries say and is_trusted_chain reports presence
     for en, kind in (('set_trusted_chain', 'sw'), ('remove_trusted_chain', 'sr')):
